@@ -102,6 +102,7 @@ class MockPg:
         self.sym_status = sym_status
         self.status = BV(8, ord('I'))       # transaction status the backend reports in ReadyForQuery
         self.copy_in = False
+        self.after_copy = []
         self.consumed = 0                    # bytes of stream.out already interpreted
         self.requests = []                   # [{'bytes': [...], 'replies': [[msg]...]}]
         self.pending = []                    # replies of extended-protocol messages not yet flushed
@@ -185,7 +186,12 @@ class MockPg:
                 return
             if code == 'c':
                 self.copy_in = False
-                self.deliver([self.emit(req, 'C', b'COPY 1\0'), self.ready(req)])
+                rest, self.after_copy = self.after_copy, []
+                if rest:
+                    # the COPY was one statement of a multi-statement Query: the rest of that message runs now
+                    self.deliver(self.run_statements(req, rest, [self.emit(req, 'C', b'COPY 1\0')]))
+                else:
+                    self.deliver([self.emit(req, 'C', b'COPY 1\0'), self.ready(req)])
                 return
             if code == 'f':
                 self.copy_in = False
@@ -314,8 +320,21 @@ class MockPg:
             self.pending.append(self.emit(req, 'E', b'SERROR\0C22012\0Mdivision by zero\0\0'))
             self.ignore_till_sync = True
             return
+        if u is not None and ('BIGROWS' in u or 'HUGEROW' in u):
+            self.pending += self.big_rows(req, u)
+            return
         self.pending.append(self.emit(req, 'D', struct.pack('>hi', 1, 8) + self.row_tag(req, sql)))
         self.pending.append(self.emit(req, 'C', b'SELECT 1\0'))
+
+    def big_rows(self, req, u):
+        """Results around pgcat's 8 KiB relay threshold: BIGROWS = three 3000-byte rows (the threshold falls inside the third),
+        HUGEROW = a first row of 9000 bytes (alone above the threshold) and a small last row."""
+        sizes = (3000, 3000, 3000) if 'BIGROWS' in u else (9000, 8)
+        out = []
+        for k, n in enumerate(sizes):
+            out.append(self.emit(req, 'D', struct.pack('>hi', 1, n) + bytes((i * 7 + k + req['n']) % 251 for i in range(n))))
+        out.append(self.emit(req, 'C', b'SELECT %d\0' % len(sizes)))
+        return out
 
     def simple_query(self, req, body):
         out = []
@@ -338,7 +357,11 @@ class MockPg:
         stmts = [s for s in stmts if s]
         if not stmts:
             out.append(self.emit(req, 'I'))
-        for s in stmts:
+        return self.run_statements(req, stmts, out)
+
+    def run_statements(self, req, stmts, out):
+        """The statements of one simple Query, in order; a COPY FROM STDIN suspends the message (the rest runs after CopyDone)."""
+        for si, s in enumerate(stmts):
             u = re.sub(r'\s+', ' ', s.upper())
             if self.st_is('E') and u not in ('ROLLBACK', 'ABORT', 'COMMIT', 'END'):
                 out.append(self.emit(req, 'E', b'SERROR\0C25P02\0Mcurrent transaction is aborted\0\0'))
@@ -399,9 +422,14 @@ class MockPg:
                 out.append(self.emit(req, 'C', b'PREPARE\0'))
             elif u.startswith('COPY ') and 'FROM STDIN' in u:
                 self.copy_in = True
+                self.after_copy = stmts[si + 1:]
                 req['started_copy'] = True
                 out.append(self.emit(req, 'G', b'\0\0\0'))
                 return out
+            elif 'BIGROWS' in u or 'HUGEROW' in u:
+                out.append(self.emit(req, 'T', struct.pack('>h', 1) + b'c\0' + struct.pack('>ihihih', 0, 0, 25, -1, -1, 0)))
+                for m_ in self.big_rows(req, u):
+                    out.append(m_)
             elif u.startswith('COPY ') and 'TO STDOUT' in u:
                 out.append(self.emit(req, 'H', b'\0\0\0'))
                 out.append(self.emit(req, 'd', b'b%dr%03d\n' % (self.idx % 10, req['n'] % 1000)))
